@@ -14,7 +14,7 @@
 (***************************************************************************)
 EXTENDS ViewAlgebra
 
-CONSTANTS BadKinds
+CONSTANTS AssignKinds, SwappedKinds, BadKinds
 
 VARIABLES bad
 kvars == <<root, abs, impl, path, bad>>
@@ -37,7 +37,14 @@ BadSteps ==
         ELSE {})
   \cup {[kind |-> "sliced", args |-> <<a, b>>] : a \in {Lo - 1}, b \in {Lo + 1}}
   \cup {[kind |-> "sliced", args |-> <<a, b>>] : a \in {Lo}, b \in {Hi + 1}}
-  \cup {[kind |-> "assign_longer", args |-> <<>>], [kind |-> "assign_shorter", args |-> <<>>]}
+  \* assignment of a source whose extents differ: one row more / one row less (AssignKinds), or the same leading extent and
+  \* number of elements with the two last extents exchanged (SwappedKinds: only a check of ALL extents can tell).  The kind's
+  \* name also says how the source is held (array, named view, temporary view, temporary read-only view, view of another
+  \* element type) and whether the destination view is named or temporary: each combination selects another operator=.
+  \cup {[kind |-> k, args |-> <<>>] : k \in AssignKinds}
+  \cup (IF Dim(abs) >= 3 /\ abs.shape[Dim(abs)] # abs.shape[Dim(abs) - 1]
+        THEN {[kind |-> k, args |-> <<>>] : k \in SwappedKinds}
+        ELSE {})
 
 (* each bad step really is outside the documented domain *)
 OutOfDomain(s) ==
